@@ -47,7 +47,7 @@ def monitor(case):
 
 def strip(case):
     return {'name': case.get('name', ''), 'nq': case['nq'], 'progs': case['progs'],
-            'grants': case.get('grants') or [], 'policy': 'first'}
+            'grants': case.get('grants') or [], 'policy': 'first', 'probe': bool(case.get('probe'))}
 
 
 def nontrivial(case):
@@ -157,7 +157,8 @@ def main(argv):
             ncorpus = len(cases)
             rep.obligation('corpus: %d recorded schedules (lost wake-up, engine-exit race) replayed on the real driver' % len(corpus),
                            out is not None and len(cases) == len(corpus))
-        gen, log = run_impl(binary, ['--seed', str(vlib.seed()), '--n', str(n)])
+        gen, log = run_impl(binary, ['--seed', str(vlib.seed()), '--n', str(n), '--shaped', '6' if thorough else '2',
+                                     '--around', '6' if thorough else '4', '--around-runs', '150' if thorough else '24'])
         if gen is None:
             rep.obligation('harness run', False)
             rep.violation({'broken': 'harness run failed', 'log': log[-4000:]}, nofail=True,
@@ -213,6 +214,10 @@ def main(argv):
         'granted_steps': sum(len(c['steps']) for c in cases),
         'steps_by_thread': dict(steps),
         'corpus_cases': ncorpus,
+        'async_commands': sum(1 for c in cases for p in c['progs'] for o in p if o.get('k') == 'async'),
+        'gpu_events_handled': sum(1 for c in cases for s in c['steps'] if s.get('at') == 'gpu:event'),
+        'early_sends_blocked': sum(1 for c in cases for s in c['steps'] if s.get('at') == 'drain:signal' and not s['chain']),
+        'cases_with_hold': sum(1 for c in cases if c.get('hold')),
         'model_mismatches': len(mism), 'monitor_failures': len(bad), 'unexpected_blocking': len(odd),
         'rank_checked_transitions': nmodel, 'rank_violations': len(rankbad),
         'stress': [{k: r[k] for k in ('workers', 'iterations', 'seconds', 'hung')} for r in stress],
@@ -222,15 +227,39 @@ def main(argv):
     })
     rep.samples = [{'progs': c['progs'], 'grants': c['grants'][:40]} for c in cases[:2]]
 
+    if not bad and (mism or odd) and not replay_file:
+        # the real driver left the model: look for a schedule on which that becomes a property violation
+        # (continuations of the diverging prefix under every hold, with the blocking send allowed early)
+        cand = sorted({i for i, _ in mism} | {i for i, _, _ in odd})[:6]
+        tries = []
+        for i in cand:
+            c = cases[i]
+            ks = [k for j, k in mism if j == i] + [k + 1 for j, k, _ in odd if j == i]
+            k = max(0, min(ks) - 1)
+            for cut in (k, max(0, k - 6)):
+                for h, hold in enumerate(['', 'a0:drain:signal', 'ra:ra:test', 'ra:ra:continue', 'ra:ra:pause', 'e:eng:returned',
+                                          'a1:drain:signal', 'e:tick:end']):
+                    for sd in range(3):
+                        tries.append(dict(strip(c), grants=c['grants'][:cut], policy='random', probe=True, hold=hold,
+                                          seed=1000 * vlib.seed() + 97 * i + 10 * h + sd + 1))
+        out, _ = replay_cases(binary, tries)
+        for c2 in out or []:
+            m = monitor(c2)
+            if m:
+                cases.append(c2)
+                bad = [(len(cases) - 1, m)]
+                break
+        rep.coverage['continuations_tried_after_divergence'] = len(tries)
+
     if bad:
         i, msg = bad[0]
         c = cases[i]
 
         def fails(grants):
-            out, _ = replay_cases(binary, [dict(strip(c), grants=grants)])
+            out, _ = replay_cases(binary, [dict(strip(c), grants=grants, probe=True)])
             return bool(out) and monitor(out[0]) is not None
         small = vlib.ddmin(c['grants'], fails, budget=60) if len(c['grants']) > 1 else c['grants']
-        out, _ = replay_cases(binary, [dict(strip(c), grants=small)])
+        out, _ = replay_cases(binary, [dict(strip(c), grants=small, probe=True)])
         cc = out[0] if out and monitor(out[0]) else c
         cc.pop('coq', None)
         rep.violation({'property': PROP, 'what': monitor(cc), 'case': cc,
